@@ -81,10 +81,11 @@ theorem qstep_removeAcked {P : Hdr → Prop} {A : Seq → Prop} (s : Tcb) (a : S
 /-- a header formed by a block: no RST; if it carries ACK it acknowledges `RCV.NXT` as it is
     after the block, and the TCB is not in SYN-SENT -/
 def NewHdr (s' : Tcb) (h : Hdr) : Prop :=
-  h.ctl.rst = false ∧ h.wnd = s'.rcv.wnd ∧ (h.ctl.ack = true → h.ack = s'.rcv.nxt ∧ s'.state ≠ .SynSent)
+  h.ctl.rst = false ∧ h.wnd = s'.rcv.wnd ∧ (h.ctl.ack = true → h.ack = s'.rcv.nxt ∧ s'.state ≠ .SynSent) ∧
+    (h.ctl.ack = true ∨ h.ctl.syn = true)
 
 theorem newHdr_ackHdr (s s' : Tcb) (hr : s'.rcv = s.rcv) (hs : s'.state ≠ .SynSent) :
-    NewHdr s' s.ackHdr.built := ⟨rfl, by rw [hr]; rfl, fun _ => ⟨by rw [hr]; rfl, hs⟩⟩
+    NewHdr s' s.ackHdr.built := ⟨rfl, by rw [hr]; rfl, fun _ => ⟨by rw [hr]; rfl, hs⟩, Or.inl rfl⟩
 
 /-- the ACK field is acceptable where an unacceptable one provokes a RST -/
 def GoodAck (s : Tcb) (seg : Hdr) : Prop :=
@@ -147,7 +148,7 @@ theorem afterAck_q {A : Seq → Prop} (t : Tcb) (seg : Hdr) (hst : t.state ≠ .
 /-- `NewHdr` only reads RCV.NXT and whether the state is SYN-SENT -/
 theorem NewHdr.congr {a b : Tcb} {h : Hdr} (hn : NewHdr a h) (hr : b.rcv = a.rcv)
     (hs : a.state ≠ .SynSent → b.state ≠ .SynSent) : NewHdr b h :=
-  ⟨hn.1, by rw [hr]; exact hn.2.1, fun ha => ⟨by rw [hr]; exact (hn.2.2 ha).1, hs (hn.2.2 ha).2⟩⟩
+  ⟨hn.1, by rw [hr]; exact hn.2.1, fun ha => ⟨by rw [hr]; exact (hn.2.2.1 ha).1, hs (hn.2.2.1 ha).2⟩, hn.2.2.2⟩
 
 theorem QStep.newHdr_congr {A : Seq → Prop} {s a b : Tcb} (h : QStep (NewHdr a) A s a)
     (hr : b.rcv = a.rcv) (hs : a.state ≠ .SynSent → b.state ≠ .SynSent)
@@ -253,13 +254,13 @@ theorem synBlock_q {A : Seq → Prop} (s : Tcb) (seg : Hdr) (s' : Tcb) (r : Opti
       split at e
       · rw [enqueueThen_eq] at e
         cases e
-        refine qstep_then_enqueue _ rfl rfl rfl ⟨rfl, ?_, fun _ => ⟨?_, ?_⟩⟩
+        refine qstep_then_enqueue _ rfl rfl rfl ⟨rfl, ?_, fun _ => ⟨?_, ?_⟩, Or.inl rfl⟩
         · rw [(enqueueBuilt_frame _ _).2.1]; rfl
         · rw [(enqueueBuilt_frame _ _).2.1]; rfl
         · rw [state_enqueueBuilt]; simp
       · rw [enqueueThen_eq] at e
         cases e
-        refine qstep_then_enqueue _ rfl rfl rfl ⟨rfl, ?_, fun _ => ⟨?_, ?_⟩⟩
+        refine qstep_then_enqueue _ rfl rfl rfl ⟨rfl, ?_, fun _ => ⟨?_, ?_⟩, Or.inl rfl⟩
         · rw [(enqueueBuilt_frame _ _).2.1]; rfl
         · rw [(enqueueBuilt_frame _ _).2.1]; rfl
         · rw [state_enqueueBuilt]; simp
@@ -287,7 +288,7 @@ theorem textBlock_q {A : Seq → Prop} (s : Tcb) (seg : Hdr) (text : List UInt8)
            | (simp at e; done)
            | (rw [enqueueThen_eq] at e
               cases e
-              refine qstep_then_enqueue _ rfl rfl rfl ⟨rfl, ?_, fun _ => ⟨?_, ?_⟩⟩
+              refine qstep_then_enqueue _ rfl rfl rfl ⟨rfl, ?_, fun _ => ⟨?_, ?_⟩, Or.inl rfl⟩
               · rw [(enqueueBuilt_frame _ _).2.1]; rfl
               · rw [(enqueueBuilt_frame _ _).2.1]; rfl
               · rw [state_enqueueBuilt]; exact hst))
@@ -312,7 +313,7 @@ theorem finBlock_q {A : Seq → Prop} (s : Tcb) (seg : Hdr) (tl : Seq) (s' : Tcb
         split at h1
         · rw [enqueue_eq] at h1
           cases h1
-          refine ⟨qstep_then_enqueue _ rfl rfl rfl ⟨rfl, ?_, fun _ => ⟨?_, ?_⟩⟩, ?_⟩
+          refine ⟨qstep_then_enqueue _ rfl rfl rfl ⟨rfl, ?_, fun _ => ⟨?_, ?_⟩, Or.inl rfl⟩, ?_⟩
           · rw [(enqueueBuilt_frame _ _).2.1]; rfl
           · rw [(enqueueBuilt_frame _ _).2.1]; rfl
           · rw [state_enqueueBuilt]; exact hst
